@@ -2,6 +2,7 @@ import EaselModel.Core.Proto
 import EaselModel.Random.Model
 import EaselModel.Random.Choose
 import EaselModel.Random.Deal64
+import EaselModel.Random.DealF
 import EaselModel.Random.Samplers
 import EaselModel.Random.Dump
 import EaselModel.Generated.RandTables
@@ -165,7 +166,7 @@ def step (s : S) (line : String) : S × String :=
   | "deal" :: _ =>
     match argNat? ws "m", argNat? ws "n" with
     | some m, some n =>
-      let (out, r) := s.r.deal m n
+      let (out, r) := dealF (F := Float) Rng.next m n s.r      -- the binary64 test `(double)(n-j) * esl_random() < (double)(m-i)`
       ({ s with r := r }, "ok " ++ ",".intercalate (out.map toString))
     | _, _ => (s, "bad-op")
   | "dchoose" :: _ =>
